@@ -900,6 +900,71 @@ static void blockIndependence(int k, int part, int nparts) {
   rec();
 }
 
+// ------------------------------------------------------------------------------------ (g) parts of a chained write message
+// "Repeating any operation after an arbitrary sequence of other operations yields the identical result": the telegram of
+// part p of a chained write message depends on the definition and the input handed to THAT call only.  Operations =
+// prepareMaster(part, input) over 3 parts x 2 inputs (+ one refused input); every history of up to 3 operations on one
+// message object, then every operation as probe; baseline = the probe as first operation on a freshly loaded message.
+static string chainProbe(Message* msg, int part, const char* input) {
+  MasterSymbolString ms;
+  std::istringstream in(input);
+  errno = 0;
+  result_t r = msg->prepareMaster((size_t)part, 0x31, SYN, UI_FIELD_SEPARATOR, &in, &ms);
+  return string(getResultCode(r)) + " " + (r == RESULT_OK ? ms.getStr() : string());
+}
+static void chainedPartHistories(int maxLen, int part, int nparts) {
+  static const char* DEF = "w,cir,chw,,,08,b509,01:2;02:2;03:2,a,,UIN,,,,b,,UIN,,,,c,,UIN\n";
+  static const char* INPUTS[] = {"4660;22136;772", "1;2;3", "1;x;3"};
+  struct CO { int part; int in; };
+  vector<CO> ops;
+  for (int p = 0; p < 3; p++) for (int i = 0; i < 3; i++) ops.push_back({p, i});
+  auto fresh = [&](MessageMap** mapOut) -> Message* {
+    MessageMap* map = new MessageMap(false, "", false);
+    static DataFieldTemplates* chainTemplates = new DataFieldTemplates();
+    static PermResolver chainResolver(chainTemplates);
+    map->setResolver(&chainResolver);
+    string text = string("# type,circuit,name,comment,qq,zz,pbsb,id,*name,part,type,divisor/values,unit,comment\n") + DEF, err;
+    std::istringstream is(text);
+    if (map->readFromStream(&is, "chw.csv", 0, false, nullptr, &err) != RESULT_OK) { delete map; return nullptr; }
+    *mapOut = map;
+    return map->find("cir", "chw", "", true, false);
+  };
+  vector<string> base(ops.size());
+  for (size_t p = 0; p < ops.size(); p++) {
+    MessageMap* map = nullptr;
+    Message* msg = fresh(&map);
+    if (!msg) { if (part == 0) R.violation("C12/config-rejected/definition-line/chained-write", string("valid chained write definition refused: ") + DEF, "k=chain;h=;p=0"); return; }
+    base[p] = chainProbe(msg, ops[p].part, INPUTS[ops[p].in]);
+    delete map;
+  }
+  if (part == 0) R.sample(string("chained write parts: ") + DEF + " part 1 of input '1;2;3' alone -> " + base[4]);
+  uint64_t idx = 0;
+  vector<int> h;
+  std::function<void()> rec = [&]() {
+    if (!h.empty() && (int)(idx++ % (uint64_t)nparts) == part) {
+      for (size_t p = 0; p < ops.size(); p++) {
+        MessageMap* map = nullptr;
+        Message* msg = fresh(&map);
+        if (!msg) return;
+        string hs;
+        for (int o : h) { chainProbe(msg, ops[(size_t)o].part, INPUTS[ops[(size_t)o].in]); hs += std::to_string(o) + "."; }
+        string got = chainProbe(msg, ops[p].part, INPUTS[ops[p].in]);
+        R.evaluations++; R.tracesValidated++; R.transitions += h.size() + 1;
+        R.distinct(vp::fnv("chain" + hs + std::to_string(p)));
+        if (got != base[p]) {
+          char b[200];
+          snprintf(b, sizeof(b), "part %d with input '%s' after %zu earlier part encodes: %s, as first operation: %s", ops[p].part, INPUTS[ops[p].in], h.size(), got.c_str(), base[p].c_str());
+          R.violation(string("C12/history-dependent/chained-part/") + (ops[p].part == 0 ? "first-part" : "later-part"), b, "k=chain;h=" + hs + ";p=" + std::to_string(p));
+        }
+        delete map;
+      }
+    }
+    if ((int)h.size() >= maxLen) return;
+    for (size_t o = 0; o < ops.size(); o++) { h.push_back((int)o); rec(); h.pop_back(); }
+  };
+  rec();
+}
+
 // ------------------------------------------------------------------------------------ (e) stream state left by other fields
 // Phase 1: every registered type (with divisor / value list variants) decodes every byte pattern of a small byte
 // alphabet in every format on a pristine stream; the formatting state (flags, precision, fill) each decode leaves
@@ -1082,6 +1147,38 @@ static int replay(const string& c) {
     printf("stream left with %s: '%s'\n", sstateStr(st).c_str(), vp::jsonEscape(got).c_str());
     if (got == base) { printf("OK\n"); return 0; }
     printf("attribute: %s\nVIOLATES\n", poisonAttr(f, d, fmt, st, base).c_str());
+    return 1;
+  }
+  if (m["k"] == "chain") {
+    // re-run the one history
+    static const char* DEF = "w,cir,chw,,,08,b509,01:2;02:2;03:2,a,,UIN,,,,b,,UIN,,,,c,,UIN\n";
+    static const char* INPUTS[] = {"4660;22136;772", "1;2;3", "1;x;3"};
+    auto fresh = [&](MessageMap** mapOut) -> Message* {
+      MessageMap* map = new MessageMap(false, "", false);
+      static DataFieldTemplates* chainTemplates = new DataFieldTemplates();
+      static PermResolver chainResolver(chainTemplates);
+      map->setResolver(&chainResolver);
+      string text = string("# type,circuit,name,comment,qq,zz,pbsb,id,*name,part,type,divisor/values,unit,comment\n") + DEF, err;
+      std::istringstream is(text);
+      if (map->readFromStream(&is, "chw.csv", 0, false, nullptr, &err) != RESULT_OK) { delete map; return nullptr; }
+      *mapOut = map;
+      return map->find("cir", "chw", "", true, false);
+    };
+    int p = atoi(m["p"].c_str());
+    MessageMap *m1 = nullptr, *m2 = nullptr;
+    Message* a = fresh(&m1);
+    Message* b = fresh(&m2);
+    if (!a || !b) { printf("definition refused: %s\nVIOLATES\n", DEF); return 1; }
+    printf("definition: %s", DEF);
+    string baseline = chainProbe(a, p / 3, INPUTS[p % 3]);
+    printf("probe part %d input '%s' as first operation: %s\n", p / 3, INPUTS[p % 3], baseline.c_str());
+    std::istringstream hs(m["h"]);
+    string t;
+    while (std::getline(hs, t, '.')) if (!t.empty()) { int o = atoi(t.c_str()); printf("  earlier: part %d input '%s' -> %s\n", o / 3, INPUTS[o % 3], chainProbe(b, o / 3, INPUTS[o % 3]).c_str()); }
+    string got = chainProbe(b, p / 3, INPUTS[p % 3]);
+    printf("probe after that history: %s\n", got.c_str());
+    if (got == baseline) { printf("OK\n"); return 0; }
+    printf("VIOLATES\n");
     return 1;
   }
   if (m["k"] == "blocks") {
@@ -1274,6 +1371,9 @@ int main(int argc, char** argv) {
 
   // (d) independence of definitions that meet in the derived type cache
   definitionIndependence((int)A.getInt("lines", thorough ? 4 : 3), A.part, A.nparts);
+
+  // (g) parts of a chained write message
+  chainedPartHistories((int)A.getInt("chainhist", thorough ? 4 : 3), A.part, A.nparts);
 
   // (f) independence of definition blocks (defaults line + messages)
   blockIndependence((int)A.getInt("blocks", thorough ? 4 : 3), A.part, A.nparts);
